@@ -291,7 +291,22 @@ func runC17(c *an.Ctx) {
 				mcs := callsTo(closure, mv)
 				okU := len(mcs) == 1
 				for _, mc := range mcs {
-					okU = okU && len(cf.AtRefined(mc.Block())) == 0
+					// unconditional: it follows the append into the pending batch on every path, and no
+					// guard about the appended headers stands in front of it (a loop that merely walks
+					// them may: its exit condition is the only fact allowed)
+					for _, ac := range callsTo(closure, app) {
+						f, _ := (an.Flow{Fn: closure}).MustFollow(ac, func(in ssa.Instruction) bool { return in == ssa.Instruction(mc) }, nil)
+						okU = okU && f
+					}
+					for _, f := range cf.AtRefined(mc.Block()) {
+						walkExit := false
+						for _, l := range indexLoops(ct) {
+							if f == l.InLoop.Neg() {
+								walkExit = true
+							}
+						}
+						okU = okU && walkExit
+					}
 				}
 				name := "?"
 				if mv != nil {
